@@ -330,9 +330,9 @@ Proof. intros x z Hx [= <-]. split; [reflexivity|]. cbn [bytes_ok forallb]. exac
 
 Example ex_afkak_gzip :
   forallb plain ex_msgs = true /\
-  exists w bs, create_gzip_message marker_oracle ex_clock 0 ex_msgs 1 = Ok w /\
-               encode_message_set_from ex_clock 2 [w] 500 1 1 = Ok bs /\
-               dec_set 2 marker_oracle bs
-               = ([(500, mkMessage 1 0 (Some [107]) (Some [1; 2; 3]) (Some 1600000000000));
-                   (500, mkMessage 1 0 None None (Some (-1)))], None).
-Proof. split; [vm_compute; reflexivity|]. eexists. eexists. split; [vm_compute; reflexivity|]. split; vm_compute; reflexivity. Qed.
+  (do w <- create_gzip_message marker_oracle ex_clock 0 ex_msgs 1;
+   do bs <- encode_message_set_from ex_clock 2 [w] 500 1 1;
+   Ok (dec_set 2 marker_oracle bs))
+  = Ok ([(500, mkMessage 1 0 (Some [107]) (Some [1; 2; 3]) (Some 1600000000000));
+         (500, mkMessage 1 0 None None (Some (-1)))], None).
+Proof. split; vm_compute; reflexivity. Qed.
